@@ -81,6 +81,10 @@ pub fn replay_step(ctx: &Ctx, property: &str, v: &Value) -> i32 {
     let mut emu = Emu::new(&ctx.base);
     let quirks = open_quirks(ctx, property);
     let j = judge(&mut emu, &step, &asp, &quirks);
+    if std::env::var("H8VERIF_QUIET_REPLAY").is_ok() && !matches!(j.verdict, Verdict::Fail(_)) {
+        println!("passes");
+        return 0;
+    }
     println!("replay {}: {}", property, step.brief());
     println!("  reference: {:?} decoded {:?}", j.step.outcome, j.step.decoded.class);
     println!("  emulator : {:?}", j.emu);
